@@ -196,6 +196,9 @@ func RemoveAll(name string) error {
 	}
 	simrt.Big.Unlock()
 	simrt.AfterSyscall(flt, "rmtree", ap)
+	if e == syscall.ENOTDIR {
+		return perr("unlinkat", name, e) // a component of the path is not a directory
+	}
 	return nil
 }
 
@@ -225,6 +228,10 @@ func Rename(oldpath, newpath string) error {
 	}
 	if t, ok := nd.children[nb]; ok {
 		switch {
+		case t.kind == kDir:
+			// os.Rename checks this up front on unix: "rename onto a directory" is reported as EEXIST
+			simrt.Big.Unlock()
+			return lerr(syscall.EEXIST)
 		case t == n:
 			simrt.Big.Unlock()
 			return nil
